@@ -86,6 +86,34 @@ def random_spectra(run, tier, nprng):
                                 run.violation({"kind": "circshift_modified_input", "D": D, "shift": shift, "copy": copy, "dtype": str(np.dtype(dt))})
 
 
+def wrapped_segments(run, tier, nprng):
+    """A spectrum segment may wrap past the end of the DFT (bin indices are taken modulo the DFT size).  For whole-sample
+    shifts the result is the roll; for ANY shift - fractional ones too - the answer may not depend on how the same
+    spectrum is presented: as the full array, or as a segment that wraps."""
+    for D in ([4, 9, 64] if tier == "quick" else [4, 5, 9, 16, 64, 101, 512]):
+        X = np.fft.fft(nprng.randn(D) + 1j * nprng.randn(D))
+        for start, ln in ((D - 2, 4), (D - 1, 2), (D // 2, D), (1, D)):
+            if ln > D:
+                continue
+            idx = (start + np.arange(ln)) % D
+            seg = X[idx].copy()
+            full = np.zeros(D, complex)
+            full[idx] = seg
+            for shift in (-3, 1, D + 2, 0.5, -2.5, 10.25, 1 / 3.0):
+                for copy in (True, False):
+                    got = util.circshift_fourier(seg.copy(), shift, start_idx=start, dft_size=D, copy=copy)
+                    ref = util.circshift_fourier(full.copy(), shift, start_idx=0, dft_size=D, copy=True)
+                    run.evaluations += 1
+                    if got.shape != seg.shape or not np.allclose(got, ref[idx], rtol=0, atol=1e-9):
+                        run.violation({"kind": "circshift_depends_on_how_the_spectrum_is_presented", "D": D, "start": start, "len": ln,
+                                       "shift": shift, "copy": copy})
+                    if float(shift).is_integer():
+                        want = np.fft.fft(np.roll(np.fft.ifft(full), int(shift)))[idx]
+                        if not np.allclose(got, want, rtol=0, atol=1e-9):
+                            run.violation({"kind": "circshift_random_spectrum_differs", "D": D, "shift": shift, "start": start, "len": ln,
+                                           "dft_size": D, "copy": copy, "dtype": "complex128", "what": "segment wrapping past the end of the DFT"})
+
+
 def windows(run, tier, table):
     classes = {"bartlett": (filters.BartlettWindow, np.bartlett), "hann": (filters.HannWindow, np.hanning),
                "hamming": (filters.HammingWindow, np.hamming), "blackman": (filters.BlackmanWindow, np.blackman)}
@@ -204,6 +232,7 @@ def run(tier, seed):
     replay_cases(run, table, nprng)
     run.traces += len(table["cases"])
     random_spectra(run, tier, nprng)
+    wrapped_segments(run, tier, nprng)
     windows(run, tier, table)
     gamma_attributes(run)
     helpers(run)
